@@ -138,6 +138,12 @@ def gen(rng, tier):
         yield Case("rnd", ["support"] + base + ["window", rng.randint(1, L), K], True, "support-window")
         yield Case("rnd", ["support"] + base + ["columns", rng.randint(1, L), K], True, "support-columns")
         yield Case("rnd", ["support"] + base + ["shuffle", "0", K], True, "support-shuffle")
+        # rarefaction: every counted row can be drawn (counts of 1 on the first / last name included)
+        cs = [rng.choice([1, 1, 2, 3]) for _ in range(n)]
+        if rng.random() < 0.3:
+            cs[rng.randrange(n)] = 0
+        if sum(cs) > 0:
+            yield Case("rnd", ["support"] + base + ["rarefy", "%d:%s" % (rng.randint(1, sum(cs)), ",".join(map(str, cs))), K], True, "support-rarefy")
         if L >= 5:
             for what in ("rogue", "shufflesites", "addgaps", "mutate"):
                 yield Case("rnd", ["support"] + base + [what, rng.choice(["1/2", "3/4", "1"]), K], True, "support-" + what)
